@@ -208,9 +208,12 @@ def reflection(ctx, rng, idx):
     # residual is relative to the face fluxes actually formed, not only to the cell-state scale
     fs = [max(a, float(np.max(np.abs(np.asarray(disc.flux[i], float))))) for i, a in enumerate(fs)]
     dxmin = float(np.min(mesh.vol()))
+    geo_tol = 64 * np.finfo(float).eps * float(np.max(np.abs(mesh.xf))) / dxmin
     tag = "%s/%s" % (spec.mname, spec.flux)
     for i in range(model.neq):
-        ctx.close("reflect:rhs", np.max(np.abs(r1[i] - r2[i])) * dxmin / fs[i], 1e-11, "reflection/rhs-not-mirror-image/%s/bc-%s-%s" % (tag, spec.bcL["type"], spec.bcR["type"]),
+        # centre positions, hence the centre-to-face and seam distances of a thin cell, carry a round-off of ulp(x)/dx_min that differs
+        # between a mesh and its mirror image (thorough-tier witnesses: cells 1e-7...1e-9 wide)
+        ctx.close("reflect:rhs", np.max(np.abs(r1[i] - r2[i])) * dxmin / fs[i], 1e-11 + geo_tol, "reflection/rhs-not-mirror-image/%s/bc-%s-%s" % (tag, spec.bcL["type"], spec.bcR["type"]),
                   {"eq": i, "max diff": np.max(np.abs(r1[i] - r2[i]))}, cls="reflect:rhs")
     # solve
     try:
@@ -223,7 +226,7 @@ def reflection(ctx, rng, idx):
     if not (_finite(e1.data) and _finite(d2)):
         raise core.Skip("nonfinite solve")
     cls = "reflect:solve-implicit" if implicit else "reflect:solve-explicit"
-    tol = 1e-9
+    tol = 1e-9 + geo_tol * nstep
     _cache = {}
     def _amp():
         if "a" not in _cache:
@@ -231,6 +234,9 @@ def reflection(ctx, rng, idx):
         return _cache["a"]
     if implicit:
         tol, cond = _implicit_tol(S1, disc, e1, cfl, iname, nstep)
+        # (on strongly stretched meshes the code's finite-difference Jacobian carries O(sqrt(eps)/dx_min) noise, known finding D20 of C06,
+        # which differs between the twins)
+        tol = tol + geo_tol * nstep + (np.sqrt(np.finfo(float).eps) * float(np.max(mesh.vol())) / dxmin * 1e-3 if float(np.max(mesh.vol())) / dxmin > 1e3 else 0.0)
         if not tol < 1e-3:
             ctx.skip("implicit:ill-conditioned-system")
             return
